@@ -9,6 +9,7 @@
 //   sh=0|1|2           1: Backend::start<FrontendOptions>(opts, SignalHandlerOptions); 0: Backend::start(opts);
 //                      2: the first start is the plain one, every restart ('r') enables the signal handler
 //   sleep_us=<n>       backend sleep_duration in microseconds (0: the backend spins)
+//   wq=<0|1>           BackendOptions::wait_for_queues_to_empty_before_exit (default 1)
 //   flush_ms=<n>       BackendOptions::sink_min_flush_interval in ms (-1: library default, 200 ms)
 //   sigto=<s>          SignalHandlerOptions::timeout_seconds
 //   pad=<n>            extra payload characters per statement
@@ -75,7 +76,7 @@ int g_actor = 0;
 int g_sh = 0; // see usage
 int g_starts = 0;
 bool g_tsc = false, g_noise = false;
-long g_sleep_us = 0, g_wait_ms = 10, g_flush_ms = -1;
+long g_sleep_us = 0, g_wait_ms = 10, g_flush_ms = -1, g_wq = 1;
 unsigned g_sigto = 10;
 quill::Logger* g_logger = nullptr;
 std::thread* g_threads[10] = {};
@@ -98,7 +99,7 @@ void start_backend()
 {
   quill::BackendOptions bo;
   bo.sleep_duration = std::chrono::microseconds{g_sleep_us};
-  bo.wait_for_queues_to_empty_before_exit = true;
+  bo.wait_for_queues_to_empty_before_exit = (g_wq != 0);   // wq=0: only the signal clause is promised then
   if (g_flush_ms >= 0) bo.sink_min_flush_interval = std::chrono::milliseconds{g_flush_ms};
   bool const with_handler = (g_sh == 1) || (g_sh == 2 && g_starts > 0);
   ++g_starts;
@@ -349,6 +350,7 @@ int main(int argc, char** argv)
   g_tsc = get("clock", "sys") == "tsc";
   g_sh = atoi(get("sh", "0").c_str());
   g_sleep_us = atol(get("sleep_us", "0").c_str());
+  g_wq = atol(get("wq", "1").c_str());
   g_flush_ms = atol(get("flush_ms", "-1").c_str());
   g_sigto = static_cast<unsigned>(atol(get("sigto", "10").c_str()));
   g_pad = std::string(static_cast<size_t>(atol(get("pad", "0").c_str())), 'x');
